@@ -260,7 +260,7 @@ def build(params):
     r = stream(s, 'config')
     sc = scen.generated_scenario(s, family='ref', raw=False, wild_index=False,
                                  onerror=False, onerror_mode=None, plant=False,
-                                 devfuncs=False, procs=r.random() < 0.75, as_collide=0.8,
+                                 devfuncs=False, procs=r.random() < 0.75, as_collide=0.8, join=0,
                                  records=r.random() < 0.7, arrays=r.random() < 0.8)
     script = dict(sc['script'], deltas=[0.0])
     return {'property': PROP, 'run_seed': s, 'source': sc['source'], 'text': sc['text'],
